@@ -31,6 +31,7 @@ package ice
 //@   ensures udp: !isTCPnt(c.networkType) ==> result == typePref(c.candidateType)
 //@   ensures relay: typePref(c.candidateType) == 0 ==> result == 0
 //@   ensures tcp-agent: isTCPnt(c.networkType) && c.currAgent != nil && c.currAgent.tcpPriorityOffset <= typePref(c.candidateType) ==> result == typePref(c.candidateType) - c.currAgent.tcpPriorityOffset
+//@   ensures tcp-saturated: isTCPnt(c.networkType) && c.currAgent != nil && c.currAgent.tcpPriorityOffset > typePref(c.candidateType) ==> result == 0
 //@   ensures tcp-default: isTCPnt(c.networkType) && c.currAgent == nil && typePref(c.candidateType) != 0 ==> result == typePref(c.candidateType) - 27
 //@   ensures range: 0 <= result && result <= 126
 
@@ -64,3 +65,17 @@ package ice
 //@ lemma C17 pairPrioMonoG: forall g int, g2 int, d int :: u32(g) && u32(g2) && u32(d) && g <= g2 ==> pairPrio(g,d) <= pairPrio(g2,d)
 //@ lemma C17 pairPrioMonoD: forall g int, d int, d2 int :: u32(g) && u32(d) && u32(d2) && d <= d2 ==> pairPrio(g,d) <= pairPrio(g,d2)
 //@ lemma C17 pairPrioSymIffEq: forall g int, d int :: u32(g) && u32(d) ==> (pairPrio(g,d) == pairPrio(d,g)) == (g == d)
+
+//@ func relayProtocolPreference
+//@   props C17
+//@   pure
+//@   ensures tls: relayProtocol == "tls" ==> result == 0
+//@   ensures tcp: relayProtocol == "tcp" ==> result == 1
+//@   ensures dtls: relayProtocol == "dtls" ==> result == 2
+//@   ensures udp: relayProtocol != "tls" && relayProtocol != "tcp" && relayProtocol != "dtls" ==> result == 3
+
+// Mirror symmetry: the controlling side's pair (L=x, R=y) and the controlled
+// side's mirrored pair (L=y, R=x) both compute pairPrio(x, y); stated over the
+// two postconditions of (*CandidatePair).priority.
+//@ lemma C17 pairPrioMirror: forall x int, y int :: u32(x) && u32(y) ==> ite(true, pairPrio(x, y), pairPrio(y, x)) == ite(false, pairPrio(y, x), pairPrio(x, y))
+//@ lemma C17 pairPrioStrictInMin: forall g int, d int, g2 int, d2 int :: u32(g) && u32(d) && u32(g2) && u32(d2) && min(g,d) < min(g2,d2) && max(g,d) <= max(g2,d2) ==> pairPrio(g,d) < pairPrio(g2,d2)
